@@ -262,3 +262,13 @@ def gen_guardrail_files():
     out.append(guardrails_payload(b"zz")[:6144 + 9])                         # truncated inside the marker
     out += [b"", b"\x8a" * 30]
     return [{"file": {"bytes": list(x)}, "pos": 0, "fkind": "bytesio"} for x in out]
+
+
+def gen_http_messages():
+    msgs = [b"GET / HTTP/1.1\r\n\r\n", b"GET /a?x=1&y=%20z HTTP/1.1\r\nHost: h\r\nA: b: c\r\n\r\nbody\r\n\r\nmore\x00",
+            b"HTTP/1.1 200 OK\r\nServer: x\r\n\r\n\x00\r\n\r\n", b"http/1.0 404 NotFound\r\n\r\n", b"HTTP/1.1 200\r\n\r\n",
+            b"HTTP/1.1 abc OK\r\n\r\n", b"GET /\r\n\r\n", b"", b"\r\n\r\n", b"GET / HTTP/1.1", b"POST /s HTTP/1.1\r\nK: v",
+            b"GET /\xff\xfe HTTP/1.1\r\n\r\n", b"GET //[::1 HTTP/1.1\r\n\r\n", b"GET http://[x/ HTTP/1.1\r\n\r\n",
+            b"A B C D\r\n\r\n", b"  GET   /x   HTTP/1.1  \r\nX: 1\r\n\r\n", b"HTTP/1.1 200 OK\r\nNoColon\r\n\r\nB",
+            b"HTTP/1.1 200 OK\r\nDup: 1\r\nDup: 2\r\n\r\n", b"GET / HTTP/1.1\r\n\r\n\r\n\r\n"]
+    return [{"bytes": list(m)} for m in msgs]
